@@ -337,6 +337,20 @@ def _link_run(ddp, workdir, cfg, r, stdin="", timeout=10, extra_c=None, objs=Non
     return r
 
 
+def farm_cli(ddp, jobs, workers=None):
+    """like farm, but every job goes through the real `kddp kompiliere` command line (one process per job):
+    the only way to reach code paths of the driver and of compiler.Compile that the batch compiler does not take
+    (e.g. --module-linken=false)"""
+    workers = workers or max(4, NPROC - 2)
+
+    def one(job):
+        files, cfg, *rest = job
+        kw = dict(rest[0]) if rest else {}
+        return compile_run(ddp, files, cfg, **kw)
+    with ThreadPoolExecutor(workers) as ex:
+        return list(ex.map(one, jobs))
+
+
 def farm(ddp, jobs, workers=None, daemons=5):
     """jobs: list of (files, cfg, kwargs). Compiles with the in-process batch compiler
     (cdaemon, same compiler sources), links and runs in a thread pool; anything the
